@@ -1,5 +1,193 @@
-import Bkl
+/-
+  C06 — "Plain data passes through unchanged; `$$` escapes any literal dollar."
+
+  Definitions used here (all in BklProofs/Lemmas/Escape*.lean):
+  * `doubleChars`, `doubleStr`, `double` (+ `doubleList`, `doubleFields`): every `$` in every
+    map key and every string leaf becomes `$$`;
+  * `dropNulls`: null map values and null list entries are removed, recursively;
+  * `noNulls v`: no null map value / list entry inside `v`;
+  * `depth`: scalars 0, a list / map is one more than its deepest entry;
+  * `recognisedCore s`: `s` is a directive name (`directiveNames`), or has prefix `$merge:` /
+    `$replace:` / `$env:`, or is an interpolation (`interpBody s ≠ none`), or is rejected by
+    `validateString`;   `recognised s := recognisedCore s || s contains "$$"`;
+  * `plain v`: no map key and no string leaf of `v` satisfies `recognisedCore`;
+    `inert v`: none satisfies `recognised`.
+-/
+import BklProofs.Lemmas.EscapeProc
 namespace Bkl
-/-- placeholder until the property theorems land -/
-theorem C06_placeholder : validate (.int 1) = .ok () := by simp [validate]; rfl
+
+/-! ## 1. unescaping undoes doubling -/
+
+theorem unescape_double (cs : List Char) : unescapeChars (doubleChars cs) = cs :=
+  e_unescape_double cs
+
+theorem finalizeString_double (s : String) : finalizeString (doubleStr s) = s :=
+  e_finalize_doubleStr s
+
+/-! ## 2. a doubled string is recognised by no phase of the evaluator -/
+
+theorem doubled_not_recognised (s : String) :
+    doubleStr s ≠ "$merge" ∧ doubleStr s ≠ "$replace" ∧ doubleStr s ≠ "$repeat" ∧
+    doubleStr s ≠ "$encode" ∧ doubleStr s ≠ "$decode" ∧ doubleStr s ≠ "$value" ∧
+    doubleStr s ≠ "$output" ∧ doubleStr s ≠ "$match" ∧ doubleStr s ≠ "$required" ∧
+    doubleStr s ≠ "$delete" ∧
+    stripPrefix (doubleStr s) "$merge:" = none ∧
+    stripPrefix (doubleStr s) "$replace:" = none ∧
+    interpBody (doubleStr s) = none ∧
+    (doubleStr s).startsWith "$env:" = false ∧
+    validateString (doubleStr s) = .ok () := by
+  have h := e_rc_doubleStr s
+  have hn := e_rc_names h
+  refine ⟨hn _ (by decide), hn _ (by decide), hn _ (by decide), hn _ (by decide),
+    hn _ (by decide), hn _ (by decide), hn _ (by decide), hn _ (by decide), hn _ (by decide),
+    hn _ (by decide), e_rc_merge h, e_rc_replace h, e_rc_interp h, e_rc_env h, e_rc_validate h⟩
+
+/-- doubling is strictly monotone for the string order, … -/
+theorem doubleStr_lt {a b : String} (h : a < b) : doubleStr a < doubleStr b :=
+  e_doubleStr_lt h
+
+/-- … so doubling a well-formed (key-sorted) value gives a well-formed value, … -/
+theorem double_WF {v : Val} (h : v.WF) : (double v).WF :=
+  e_wf_double_all.1 v h
+
+/-- … which is plain: nothing in it is recognised by the evaluator. -/
+theorem double_plain (v : Val) : plain (double v) = true :=
+  e_plain_double_all.1 v
+
+/-! ## 3. inert data -/
+
+theorem inert_plain {v : Val} (h : inert v = true) : plain v = true := e_inert_plain h
+
+/-! ## 4./5. the two evaluation phases are the identity up to null dropping -/
+
+/-- process1 on plain data (inert or doubled): only nulls are dropped, the root is untouched. -/
+theorem C06_process1_plain (fuel : Nat) (docs : List Val) (root : Val) (loc : Loc) (v : Val)
+    (hp : plain v = true) (hw : v.WF) (hd : depth v < fuel) :
+    process1 fuel docs root loc v = .ok (dropNulls v, root) :=
+  e_process1_plain fuel docs root loc v hp hw hd
+
+theorem C06_process1_inert (fuel : Nat) (docs : List Val) (root : Val) (loc : Loc) (v : Val)
+    (hi : inert v = true) (hw : v.WF) (hd : depth v < fuel) :
+    process1 fuel docs root loc v = .ok (dropNulls v, root) :=
+  e_process1_plain fuel docs root loc v (e_inert_plain hi) hw hd
+
+theorem C06_process2_plain (fuel : Nat) (docs : List Val) (root : Val) (ec : Vars) (v : Val)
+    (hp : plain v = true) (hw : v.WF) (hd : depth v < fuel) :
+    process2 fuel docs root ec v = .ok (dropNulls v) :=
+  e_process2_plain fuel docs root ec v hp hw hd
+
+theorem C06_process2_inert (fuel : Nat) (docs : List Val) (root : Val) (ec : Vars) (v : Val)
+    (hi : inert v = true) (hw : v.WF) (hd : depth v < fuel) :
+    process2 fuel docs root ec v = .ok (dropNulls v) :=
+  e_process2_plain fuel docs root ec v (e_inert_plain hi) hw hd
+
+/-- `dropNulls` is idempotent (so a second phase changes nothing more). -/
+theorem dropNulls_idem (v : Val) : dropNulls (dropNulls v) = dropNulls v := e_dropNulls_idem v
+
+/-! ## 6. emission -/
+
+theorem C06_emit_inert (v : Val) (hi : inert v = true) (hw : v.WF) (hn : noNulls v = true)
+    (h0 : v ≠ .null) : emit [v] = .ok [v] := by
+  have hp := e_inert_plain hi
+  have := e_emit_single v v (e_findOutputs_plain_all.1 v hp)
+    (e_filterOutput_plain_all.1 v hp hn (by cases v <;> simp_all [Val.isNull]))
+    (e_validate_plain_all.1 v hp)
+  rw [this, e_finalize_noDD_all.1 v (e_inert_noDD hi) hw]
+
+/-! ## 7. plain data passes through unchanged -/
+
+theorem C06_identity (docs : List Val) (env : Vars) (v : Val)
+    (hi : inert v = true) (hw : v.WF) (hd : depth v < depthLimit) (hn : dropNulls v ≠ .null) :
+    outputDocument docs env v = .ok [dropNulls v] := by
+  rw [e_outputDocument_plain docs env v (e_inert_plain hi) hw hd hn]
+  have h1 : noDD (dropNulls v) = true := (e_allStr_dropNulls_all _).1 v (e_inert_noDD hi)
+  rw [e_finalize_noDD_all.1 _ h1 (e_wf_dropNulls_all.1 v hw)]
+
+/-- a null document produces no output at all -/
+theorem C06_identity_null (docs : List Val) (env : Vars) :
+    outputDocument docs env .null = .ok [] :=
+  e_outputDocument_null docs env
+
+/-- `dropNulls v` is null exactly for the null document -/
+theorem dropNulls_eq_null_iff (v : Val) : dropNulls v = .null ↔ v = .null := by
+  cases v <;> simp [dropNulls]
+
+/-! ## 8. `$$` escapes any literal dollar: doubled data evaluates to the original data -/
+
+theorem C06_escape (docs : List Val) (env : Vars) (v : Val)
+    (hw : v.WF) (hd : depth v < depthLimit) (hn : dropNulls v ≠ .null) :
+    outputDocument docs env (double v) = .ok [dropNulls v] := by
+  have hn' : dropNulls (double v) ≠ .null := by
+    rw [e_dropNulls_double_all.1]; cases v <;> simp_all [dropNulls, double]
+  rw [e_outputDocument_plain docs env (double v) (e_plain_double_all.1 v)
+    (e_wf_double_all.1 v hw) (by rw [e_depth_double_all.1]; exact hd) hn']
+  rw [e_dropNulls_double_all.1, e_finalize_double_all.1 _ (e_wf_dropNulls_all.1 v hw)]
+
+theorem C06_escape_null (docs : List Val) (env : Vars) :
+    outputDocument docs env (double .null) = .ok [] :=
+  e_outputDocument_null docs env
+
+/-! ## the depth hypothesis cannot be dropped -/
+
+/-- `nest n` (n singleton lists around `1`) is inert, well-formed, null-free, of depth `n`;
+    below the limit it evaluates to itself, at the limit evaluation fails with
+    `circularRef` (process1 enters the root with fuel `depthLimit = 1000`). -/
+theorem C06_depth_bound_needed (docs : List Val) (env : Vars) (n : Nat) :
+    inert (nest n) = true ∧ (nest n).WF ∧ depth (nest n) = n ∧ dropNulls (nest n) = nest n ∧
+    (n < depthLimit → outputDocument docs env (nest n) = .ok [nest n]) ∧
+    (depthLimit ≤ n → outputDocument docs env (nest n) = .error .circularRef) := by
+  obtain ⟨h1, h2, h3, h4⟩ := e_nest_props n
+  refine ⟨h1, h2, h3, h4, ?_, e_outputDocument_nest_fail docs env n⟩
+  intro hn
+  have := C06_identity docs env (nest n) h1 h2 (by omega) (by rw [h4]; cases n <;> simp [nest])
+  rw [this, h4]
+
+/-! ## non-vacuity -/
+
+local instance instDecWF_C06 (v : Val) : Decidable v.WF := by unfold Val.WF; infer_instance
+
+/-- plain data with dollars that are not directives, nulls to drop, nested containers -/
+def c06_ex1 : Val :=
+  .map [("a", .str "$5 bill"), ("b", .list [.null, .int 1, .str "x{y}$", .map [("$", .null)]]),
+        ("c", .null), ("d", .map [])]
+
+example : inert c06_ex1 = true ∧ c06_ex1.WF ∧ depth c06_ex1 < depthLimit ∧
+    dropNulls c06_ex1 ≠ .null := by decide
+
+example : outputDocument [] [] c06_ex1 =
+    .ok [.map [("a", .str "$5 bill"), ("b", .list [.int 1, .str "x{y}$", .map []]),
+               ("d", .map [])]] :=
+  C06_identity [] [] c06_ex1 (by decide) (by decide) (by decide) (by decide)
+
+example : inert (dropNulls c06_ex1) = true ∧ (dropNulls c06_ex1).WF ∧
+    noNulls (dropNulls c06_ex1) = true ∧ dropNulls c06_ex1 ≠ .null := by decide
+
+example : process1 depthLimit [] c06_ex1 (some []) c06_ex1 = .ok (dropNulls c06_ex1, c06_ex1) :=
+  C06_process1_inert _ _ _ _ _ (by decide) (by decide) (by decide)
+
+example : process2 depthLimit [] c06_ex1 [] c06_ex1 = .ok (dropNulls c06_ex1) :=
+  C06_process2_inert _ _ _ _ _ (by decide) (by decide) (by decide)
+
+example : emit [dropNulls c06_ex1] = .ok [dropNulls c06_ex1] :=
+  C06_emit_inert _ (by decide) (by decide) (by decide) (by decide)
+
+/-- data full of directive names: every one is neutralised by doubling -/
+def c06_ex2 : Val :=
+  .map [("$merge", .str "$env:HOME"), ("$output", .bool false),
+        ("k$$", .list [.str "$\"{a}\"", .null, .str "$required", .map [("$repeat", .int 3)]])]
+
+example : c06_ex2.WF ∧ depth c06_ex2 < depthLimit ∧ dropNulls c06_ex2 ≠ .null := by decide
+
+example : outputDocument [] [] (double c06_ex2) =
+    .ok [.map [("$merge", .str "$env:HOME"), ("$output", .bool false),
+        ("k$$", .list [.str "$\"{a}\"", .str "$required", .map [("$repeat", .int 3)]])]] :=
+  C06_escape [] [] c06_ex2 (by decide) (by decide) (by decide)
+
+example : doubleStr "a$b$$" = "a$$b$$$$" := by decide
+
+/-- the fuel bound is tight: depth 1 needs fuel 2 -/
+example : process1 1 [] .null none (.list [.int 1]) = .error .circularRef := by rfl
+example : process1 2 [] .null none (.list [.int 1]) = .ok (.list [.int 1], .null) := by rfl
+example : process2 1 [] .null [] (.list [.int 1]) = .error .circularRef := by rfl
+
 end Bkl
